@@ -13,7 +13,7 @@ type call = {
 
 type hist = {
   gen : int; bufcap : int; errfull : bool; limiter : bool;
-  flush : int; capint : int; audit : int; maxop : int; pause : int; maxconc : int; busy_fd : int; busy_audit : int; busy_cap : int;
+  flush : int; capint : int; audit : int; maxop : int; pause : int; maxconc : int; busy_fd : int; busy_audit : int; busy_cap : int; react_pause : int;
   watchers : (int * int * int) array;   (* maxbatch, maxattempts, maxop *)
   lines : line list;
   ended : bool;
@@ -51,9 +51,10 @@ let read path : hist =
   close_in ic;
   match !cfg with
   | g :: bufcap :: errfull :: limiter :: flush :: capint :: audit :: maxop :: pause :: maxconc :: busy ->
-      let busy_fd, busy_audit, busy_cap = (match busy with [a; b; d] -> (a, b, d) | [a; b] -> (a, b, 0) | _ -> (0, 0, 0)) in
+      let busy_fd, busy_audit, busy_cap = (match busy with a :: b :: d :: _ -> (a, b, d) | [a; b] -> (a, b, 0) | _ -> (0, 0, 0)) in
+      let react_pause = (match busy with [_; _; _; e] -> e | _ -> 0) in
       { gen = g; bufcap; errfull = errfull <> 0; limiter = limiter <> 0; flush; capint; audit; maxop;
-        pause; maxconc; busy_fd; busy_audit; busy_cap; watchers = Array.of_list (List.rev !ws); lines = List.rev !lines; ended = !ended; hung = !hung }
+        pause; maxconc; busy_fd; busy_audit; busy_cap; react_pause; watchers = Array.of_list (List.rev !ws); lines = List.rev !lines; ended = !ended; hung = !hung }
   | _ -> failwith "cfg"
 
 let timeout_of h w =
@@ -397,6 +398,29 @@ let c13 h : string list =
       | "L", (("batch" | "request" | "giveme" | "auditskip" | "auditpass" | "auditfail" | "capread" | "flushstart" | "shutdown") as k) :: _ ->
           if !pause_t >= 0 then hits := (Printf.sprintf "c13:activity-while-paused t=%d %s between pause and resume" ln.t k) :: !hits
       | _ -> ()) h.lines;
+  (* Pause() works again after every resume: the first react_pause resume events are answered by a Pause() from a
+     listener's own goroutine; on a Batcher that nobody has asked to stop, a pause event follows in the same instant *)
+  if h.react_pause > 0 && h.busy_fd = 0 && h.busy_audit = 0 && h.busy_cap = 0 then begin
+    (* without slow listeners every step of the loop takes no time: the new pause begins in the very instant of the resume *)
+    let arr = Array.of_list h.lines in
+    let nres = ref 0 and stop_seen = ref false in
+    Array.iteri (fun i ln ->
+        match ln.src, ln.w with
+        | "D", ["act"; "stop"] -> stop_seen := true
+        | "L", ["resume"] ->
+            incr nres;
+            if !nres <= h.react_pause && not !stop_seen then begin
+              let found = ref false and stopped_now = ref false in
+              Array.iteri (fun j l2 -> if j > i && l2.t = ln.t then begin
+                                          (match l2.src, l2.w with
+                                           | "L", ["pause"; _] -> found := true
+                                           | "D", ["act"; "stop"] | "L", ["shutdown"] -> stopped_now := true
+                                           | _ -> ()) end) arr;
+              if not !found && not !stopped_now then
+                hits := (Printf.sprintf "c13:pause-after-resume-ignored t=%d a Pause() made in answer to the resume event had no effect" ln.t) :: !hits
+            end
+        | _ -> ()) arr
+  end;
   let last_t = List.fold_left (fun a ln -> max a ln.t) 0 h.lines in
   if !pause_t >= 0 && last_t > !pause_t + pt then
     hits := (Printf.sprintf "c13:no-resume t=%d the pause that began at %d was never followed by a resume event" last_t !pause_t) :: !hits;
